@@ -92,7 +92,7 @@ Definition tree_case (fs : fsmap) (root : bytes) (ot : otable) (et : etable) (fu
             | None => None
             end in
           TScanned (List.map (render_dir render_depth files) (cs_forest st)) (cs_log st)
-            (match compile_macros echeck fuel (cs_forest st) with
+            (match compile_macros echeck (Nat.min fuel 600) (cs_forest st) with
              | XOk ex =>
                  T2Ok (List.map (render_dir render_depth files) (ex_roots ex))
                       (List.map fst (ex_macros ex))
